@@ -2,13 +2,23 @@
 //
 // tlink.cpp includes this header and then `#include`s thread-link.cpp itself, so that
 // every shared access of the *unmodified* source becomes a call into the harness:
-//   std::atomic<off_t>          -> verif::Atomic<off_t>   (loads/stores of write/read/read_lookahead)
-//   memcpy                      -> verif_memcpy           (ring <-> message buffer copies, chunked)
+//   std::atomic<off_t>          -> verif::Atomic<off_t>   (loads/stores of write/read/read_lookahead,
+//                                                          with the memory order the source asks for)
+//   memcpy / memmove / __builtin_memcpy / std::copy / std::copy_n
+//                               -> verif::copy            (ring <-> message buffer copies, chunked)
 //   rtosc_message_ring_length   -> verif_ring_length      (framing reads of the ring view)
 // All headers thread-link.cpp needs are included *before* the macros are defined, so the
 // macros only rewrite the text of thread-link.cpp.
+//
+// verif::Atomic offers the whole std::atomic interface (load/store/exchange/compare_exchange/
+// fetch_add/fetch_sub/operators, with explicit orders), so a tree that spells its memory orders
+// out still builds.  The order of every access made inside a ThreadLink operation is checked
+// against what the proof assumes (DRF-SC): stores of `write`/`read` must be release or stronger,
+// loads of the *other* thread's index acquire or stronger; anything weaker is reported on the
+// output line (` MO:…`), which the oracle turns into a failing input.
 #pragma once
 #include <atomic>
+#include <algorithm>
 #include <cstring>
 #include <cassert>
 #include <cstdio>
@@ -22,33 +32,107 @@
 namespace verif {
 enum Var { V_WRITE = 0, V_READ = 1, V_LA = 2 };
 extern int g_next_var;                       // reset before a ThreadLink is constructed
-void on_load(int var);                       // called *before* the access takes place
-void after_load(int var, long value);
-void on_store(int var, long value);
+void before_load(int var);                   // called *before* the access takes place (scheduling point)
+void after_load(int var, long value, int order);
+void before_store(int var);                  // scheduling point
+void note_store(int var, long value, int order);
 void copy(void *dst, const void *src, size_t n);
 size_t ring_length(ring_t *r);
 
 template <class T> struct Atomic {
     std::atomic<T> v;
     int var;
-    Atomic() : v(), var(g_next_var++ % 3) {}
-    operator T() const {
-        on_load(var);
-        T x = v.load();
-        after_load(var, (long)x);
+    Atomic() noexcept : v(), var(g_next_var++ % 3) {}
+    Atomic(T x) noexcept : v(x), var(g_next_var++ % 3) {}
+    Atomic(const Atomic &) = delete;
+    Atomic &operator=(const Atomic &) = delete;
+
+    T load(std::memory_order o = std::memory_order_seq_cst) const noexcept {
+        before_load(var);
+        T x = v.load(o);
+        after_load(var, (long)x, (int)o);
         return x;
     }
-    T operator=(T x) {
-        on_store(var, (long)x);
-        v.store(x);
-        return x;
+    void store(T x, std::memory_order o = std::memory_order_seq_cst) noexcept {
+        before_store(var);
+        note_store(var, (long)x, (int)o);
+        v.store(x, o);
     }
-    T raw() const { return v.load(); }
+    operator T() const noexcept { return load(); }
+    T operator=(T x) noexcept { store(x); return x; }
+
+    // read-modify-write operations: one scheduling point, reported as a store of the new value
+    T exchange(T x, std::memory_order o = std::memory_order_seq_cst) noexcept {
+        before_store(var);
+        note_store(var, (long)x, (int)o);
+        return v.exchange(x, o);
+    }
+    bool compare_exchange_strong(T &e, T d, std::memory_order s, std::memory_order f) noexcept {
+        before_store(var);
+        bool ok = v.compare_exchange_strong(e, d, s, f);
+        if (ok) note_store(var, (long)d, (int)s); else after_load(var, (long)e, (int)f);
+        return ok;
+    }
+    bool compare_exchange_strong(T &e, T d, std::memory_order o = std::memory_order_seq_cst) noexcept {
+        return compare_exchange_strong(e, d, o, o == std::memory_order_acq_rel ? std::memory_order_acquire :
+                                             o == std::memory_order_release ? std::memory_order_relaxed : o);
+    }
+    bool compare_exchange_weak(T &e, T d, std::memory_order s, std::memory_order f) noexcept {
+        return compare_exchange_strong(e, d, s, f);
+    }
+    bool compare_exchange_weak(T &e, T d, std::memory_order o = std::memory_order_seq_cst) noexcept {
+        return compare_exchange_strong(e, d, o);
+    }
+    T fetch_add(T x, std::memory_order o = std::memory_order_seq_cst) noexcept {
+        before_store(var);
+        T old = v.fetch_add(x, o);
+        note_store(var, (long)(old + x), (int)o);
+        return old;
+    }
+    T fetch_sub(T x, std::memory_order o = std::memory_order_seq_cst) noexcept {
+        before_store(var);
+        T old = v.fetch_sub(x, o);
+        note_store(var, (long)(old - x), (int)o);
+        return old;
+    }
+    T operator+=(T x) noexcept { return fetch_add(x) + x; }
+    T operator-=(T x) noexcept { return fetch_sub(x) - x; }
+    T operator++() noexcept { return fetch_add(1) + 1; }
+    T operator++(int) noexcept { return fetch_add(1); }
+    T operator--() noexcept { return fetch_sub(1) - 1; }
+    T operator--(int) noexcept { return fetch_sub(1); }
+    bool is_lock_free() const noexcept { return v.is_lock_free(); }
+
+    T raw() const { return v.load(); }       // harness only: no event, no scheduling point
 };
+
 } // namespace verif
 
 namespace std {
 template <class T> using verif_atomic = ::verif::Atomic<T>;
+// std::copy / std::copy_n over byte pointers are the same thing as memcpy to the scheduler
+template <class I, class O> inline O verif_copy(I first, I last, O out) {
+    return std::copy(first, last, out);
+}
+inline char *verif_copy(const char *first, const char *last, char *out) {
+    ::verif::copy(out, first, (size_t)(last - first));
+    return out + (last - first);
+}
+inline char *verif_copy(char *first, char *last, char *out) {
+    ::verif::copy(out, first, (size_t)(last - first));
+    return out + (last - first);
+}
+template <class I, class N, class O> inline O verif_copy_n(I first, N n, O out) {
+    return std::copy_n(first, n, out);
+}
+inline char *verif_copy_n(const char *first, size_t n, char *out) {
+    ::verif::copy(out, first, n);
+    return out + n;
+}
+inline char *verif_copy_n(char *first, size_t n, char *out) {
+    ::verif::copy(out, first, n);
+    return out + n;
+}
 }
 inline void *verif_memcpy(void *dst, const void *src, size_t n) {
     verif::copy(dst, src, n);
@@ -58,4 +142,9 @@ inline size_t verif_ring_length(ring_t *r) { return verif::ring_length(r); }
 
 #define atomic verif_atomic
 #define memcpy verif_memcpy
+#define memmove verif_memcpy
+#define __builtin_memcpy verif_memcpy
+#define __builtin_memmove verif_memcpy
+#define copy verif_copy
+#define copy_n verif_copy_n
 #define rtosc_message_ring_length verif_ring_length
